@@ -16,20 +16,22 @@ TypePool == {"Eof", "Eof2", "Quasiterminal", "Quasiterminal2", "QuasiterminalKin
              "Action", "RuleKind", "ACTION_TABLE", "GOTO_TABLE", "ACTION_TABLE2", "S", "S2", "T", "Terminal", "Error", "Item", "Shift",
              "Reduce", "Accept", "S0", "R0", "_1", "__", "Self_", "Token"}
 FieldPool == {"states", "nodes", "src", "t0", "quasiterminals", "reduce", "parse", "top_state", "node", "_1", "t", "n"}
-Benign == [tenum |-> "Tok", t1 |-> "Ta", start |-> "Start0", en |-> "En", v1 |-> "Va", tu |-> "Tu", un |-> "Un", f1 |-> "fld"]
-TypeRoles == {"tenum", "t1", "start", "en", "v1", "tu", "un"}
+Benign == [tenum |-> "Tok", t1 |-> "Ta", start |-> "Start0", en |-> "En", v1 |-> "Va", tu |-> "Tu", un |-> "Un", em |-> "Em", f1 |-> "fld"]
+\* em: a variant-less enum (a nonterminal WITHOUT any production; it is still a defined identifier and an emitted type)
+TypeRoles == {"tenum", "t1", "start", "en", "v1", "tu", "un", "em"}
 Assign(rs) == \* rs: function from a set of roles to names
   [r \in DOMAIN Benign |-> IF r \in DOMAIN rs THEN rs[r] ELSE Benign[r]]
 Mk(a) == [tenum |-> a.tenum, terms |-> <<a.t1, "Tb">>, start |-> a.start,
           nts |-> << [name |-> a.start, kind |-> "named", variants |-> <<>>, fields |-> <<a.f1, "other">>],
-                     [name |-> a.en, kind |-> "enum", variants |-> <<a.v1, "Vb">>, fields |-> <<>>],
+                     [name |-> a.en, kind |-> "enum", variants |-> <<a.v1, "Vb", "Vc">>, fields |-> <<>>],
                      [name |-> a.tu, kind |-> "tuple", variants |-> <<>>, fields |-> <<>>],
-                     [name |-> a.un, kind |-> "unit", variants |-> <<>>, fields |-> <<>>] >>]
-TopDistinct(a) == Cardinality({a.tenum, a.t1, "Tb", a.start, a.en, a.tu, a.un}) = 7 /\ a.v1 # "Vb"
+                     [name |-> a.un, kind |-> "unit", variants |-> <<>>, fields |-> <<>>],
+                     [name |-> a.em, kind |-> "enum", variants |-> <<>>, fields |-> <<>>] >>]
+TopDistinct(a) == Cardinality({a.tenum, a.t1, "Tb", a.start, a.en, a.tu, a.un, a.em}) = 8 /\ a.v1 \notin {"Vb", "Vc"}
 One == { Assign([x \in {r} |-> n]) : r \in TypeRoles, n \in TypePool } \cup { Assign([x \in {"f1"} |-> n]) : n \in FieldPool }
-RoleSeq == <<"tenum", "t1", "start", "en", "v1", "tu", "un">>
+RoleSeq == <<"tenum", "t1", "start", "en", "v1", "tu", "un", "em">>
 Two == UNION { { Assign([x \in {RoleSeq[p[1]], RoleSeq[p[2]]} |-> IF x = RoleSeq[p[1]] THEN n1 ELSE n2]) : n1 \in TypePool, n2 \in TypePool }
-               : p \in { q \in (1..7) \X (1..7) : q[1] < q[2] } }
+               : p \in { q \in (1..8) \X (1..8) : q[1] < q[2] } }
 \* PAIRS = "1": every pair of roles; otherwise single roles exhaustively plus the seeded sample of pairs in the file EXTRA
 Extra == IF IOEnv.EXTRA = "" THEN {} ELSE { r : r \in SeqSet(ndJsonDeserialize(IOEnv.EXTRA)) }
 Namings == { Mk(a) : a \in { b \in (IF IOEnv.PAIRS = "1" THEN One \cup Two ELSE One \cup Extra) : TopDistinct(b) } }
